@@ -1271,7 +1271,9 @@ def check_map_taylor_point(ctx, it):
         vf = pdq.ode(lambda u, /, *, t: jnp.stack([th[0] * u[0] * (1 - u[0]) + th[1] * u[0] ** 2 * u[1], -u[1] + u[0]]), jacobian=pdq.jacobian_materialize())
         tcoeffs, _ = pdq.jetexpand_ode_padded_scan(num=q)(vf, (jnp.asarray([0.25, 0.5]),), t=0.0)
         prior = ssm.prior_wiener_integrated(tcoeffs) if init == "exact" else ssm.prior_wiener_integrated(tcoeffs, is_exact=False, inexact_eps=2.0**-5)
-        tp = pdq.taylor_point_maximum_a_posteriori(nlstsq=taylor_points.lstsq_constrained_gauss_newton(maxiter=30, tol=1e-13))
+        # converged iteration (tight solver) or the default solver (at most 10 sweeps, tolerance 1e-6: the iteration is part of
+        # the computed function and is differentiated as it runs, starting point included - seeded change C16-s9)
+        tp = pdq.taylor_point_maximum_a_posteriori(nlstsq=taylor_points.lstsq_constrained_gauss_newton(maxiter=30, tol=1e-13)) if it % 2 == 0 else pdq.taylor_point_maximum_a_posteriori()
         con = ssm.constraint_ode_ts1(vf, taylor_point=tp)
         sol = pdq.solver(strategy=pdq.strategy_filter(), constraint=con)
         s = ivpsolve.solve_fixed_grid(solver=sol)(prior, grid=grid, damp=2.0**-6)
@@ -1370,6 +1372,6 @@ def run(ctx):
         guarded(ctx, "adaptive:stopped-dt", check_adaptive_stopped_dt, ctx, it)
     tm["adaptive stop-gradient"] = round(time.time() - ta, 1)
     ta = time.time()
-    for it in range(ctx.n(1, 6)):
+    for it in range(ctx.n(2, 6)):
         guarded(ctx, "map-taylor-point", check_map_taylor_point, ctx, it)
     tm["MAP taylor point"] = round(time.time() - ta, 1)
